@@ -720,6 +720,21 @@ func (v Value) convert(t Type) (res Value) {
 		}
 		return newSlice(TypeUint8, s)
 	default:
+		// a named slice, map or func type (type IDs []int; IDs(x)): the operand has that underlying type already
+		switch t.base() {
+		case TypeSlice:
+			if v.t == TypeString && t.value() == TypeUint8 { // type B []byte; B("abc")
+				return v.convert(TypeSlice)
+			}
+			fallthrough
+		case TypeMap, TypeFunc:
+			if v.t == TypeNil {
+				return Value{t: t}
+			}
+			if v.t.base() == t.base() {
+				return v
+			}
+		}
 		return Value{}
 	}
 }
